@@ -623,8 +623,17 @@ def _with_replay(fn):
             if isinstance(v.get("replay"), dict) and v["replay"].get("kind") == "attach":
                 from families import attach
                 return attach.replay_attach(ctx)
+            if isinstance(v.get("replay"), dict) and v["replay"].get("kind") == "outpath":
+                from families import outpath
+                return outpath.replay_outpath(ctx)
             return replay_one(ctx)
-        return fn(ctx)
+        r = fn(ctx)
+        if ctx.pid in ("C34", "C12"):
+            # schedules of the write path (spec/OutPath.tla): write loop and reader of one connection at the schedule points
+            # of WriteLoop / WritePacket and inside the connection's Write
+            from families import outpath
+            outpath.add_to(ctx, ctx.pid)
+        return r
     return run
 
 
